@@ -187,6 +187,42 @@ class Real:
         return self.Fcache[k]
 
 
+def replay_lu(inp):
+    """re-run a recorded LU history (input of a `_LU-*` failing input) on the real code, faults omitted;
+    returns True when the last LU_decomp(A) still differs from the decomposition of a copy of A"""
+    mpmath = import_repo()
+    mp = mpmath.mp
+    save = mp.prec
+    try:
+        mp.prec = inp["p0"]
+        A = mp.matrix([[mp.mpf(a_) / b_ + c_ for a_, b_, c_ in row] for row in inp["matrix_num_den"]])
+        res = None
+        for op in inp["pyops"]:
+            if op[0] == "D":
+                if op[2] and not (op[1] and A._LU):
+                    res = None                   # the injected fault fired before anything was computed
+                    continue
+                try:
+                    res = mp.LU_decomp(A, use_cache=bool(op[1]))
+                except ZeroDivisionError:
+                    res = None
+            elif op[0] == "S":
+                A[op[1], op[2]] = mp.mpf(op[3]) / op[4]
+            elif op[0] == "R":
+                A.rows = op[1]; A.cols = op[1]
+            elif op[0] == "P":
+                mp.prec = op[1]
+        if res is None:
+            return False
+        try:
+            ref = mp.LU_decomp(A.copy(), use_cache=False)
+        except ZeroDivisionError:
+            return True
+        return not (res[0] == ref[0] and res[1] == ref[1])
+    finally:
+        mp.prec = save
+
+
 def py_newprec(p):
     return int(p * 1.05 + 10)
 
@@ -238,6 +274,7 @@ class CacheHarness:
         self.dis = []          # model/impl disagreements
         self.findings = []     # behaviours of the unchanged code that violate the property (with replay)
         self.soft = {}         # counters for rounding-level differences
+        self.lu_stale = {"resize": 0, "precision": 0}
         self.count = {}
 
     def bump(self, k, n=1):
@@ -246,31 +283,46 @@ class CacheHarness:
     def softbump(self, k, n=1):
         self.soft[k] = self.soft.get(k, 0) + n
 
+    def find(self, site, d):
+        """a behaviour of the real code that violates the property (not a model difference)"""
+        d = dict(d)
+        what = d.pop("what")
+        self.findings.append({"site": site, "what": what, "input": d})
+
     def disagree(self, part, line, impl, model, note=""):
         self.dis.append({"part": part, "line": line[:300], "impl": impl, "model": model, "note": note})
 
     # ---------------------------------------------------------------- newprec, exhaustively
-    def part_newprec(self, n):
+    def part_newprec(self, n, exhaustive=None):
+        """int(prec*1.05+10): model (exact integers) against CPython.  Exhaustive for prec <= 10^6 when
+        `exhaustive` (default: the environment variable CACHE_NEWPREC_EXHAUSTIVE, on for the command line),
+        otherwise a seeded sample of 30000 precisions plus all prec <= 5000; always the binade boundaries
+        up to 2^60 and 2000 seeded large values."""
+        if exhaustive is None:
+            exhaustive = os.environ.get("CACHE_NEWPREC_EXHAUSTIVE", "1") == "1"
+        r = self.g.r
         lim = 10 ** 6
         chunk = 20000
-        lines = ["newprecs %d %d" % (lo, min(lo + chunk, lim + 1)) for lo in range(0, lim + 1, chunk)]
-        extra = [2 ** k + d for k in range(20, 60) for d in (-1, 0, 1)] + [self.g.r.randrange(10 ** 6, 10 ** 15) for _ in range(2000)]
+        ranges = [(lo, min(lo + chunk, lim + 1)) for lo in range(0, lim + 1, chunk)] if exhaustive else [(0, 5001)]
+        lines = ["newprecs %d %d" % rg for rg in ranges]
+        extra = [2 ** k + d for k in range(13, 60) for d in (-1, 0, 1)] + [r.randrange(10 ** 6, 10 ** 15) for _ in range(2000)]
+        if not exhaustive:
+            extra += [r.randrange(5000, lim + 1) for _ in range(30000)]
         lines += ["newprec %d" % p for p in extra]
         out = self.drv.ask(lines)
         k = 0
-        for i, lo in enumerate(range(0, lim + 1, chunk)):
-            vals = out[i][2:].split(";")
+        for (lo, hi), ans in zip(ranges, out):
+            vals = ans[2:].split(";")
             for j, v in enumerate(vals):
-                p = lo + j
                 k += 1
-                if int(v) != py_newprec(p):
-                    self.disagree("newprec", "newprec %d" % p, py_newprec(p), v)
-        nchunks = len(range(0, lim + 1, chunk))
-        for p, a in zip(extra, out[nchunks:]):
+                if int(v) != py_newprec(lo + j):
+                    self.disagree("newprec", "newprec %d" % (lo + j), py_newprec(lo + j), v)
+        for p, a in zip(extra, out[len(ranges):]):
             k += 1
             if a != "I:%d" % py_newprec(p):
                 self.disagree("newprec", "newprec %d" % p, py_newprec(p), a)
         self.bump("newprec", k)
+        self.count["newprec_exhaustive_to_1e6"] = bool(exhaustive)
 
     # ---------------------------------------------------------------- key functions of the table caches
     def part_keys(self, n):
@@ -384,19 +436,19 @@ class CacheHarness:
                     if impl != it:
                         self.disagree("memo", line, impl, it, name)
                     if res[0] == "x" and (mprec, mval) != before:
-                        self.findings.append({"what": "constant_memo state changed by an aborted call", "name": name, "hist": hist})
+                        self.find("libelefun.constant_memo", {"what": "constant_memo state changed by an aborted call", "name": name, "hist": hist})
             # invariant on every constant with the real F
             for name in names:
                 w = R.w[name]
                 if w.memo_prec >= 0 and (w.memo_val is None or int(w.memo_val) != R.F(name, w.memo_prec)):
-                    self.findings.append({"what": "memo_val != F(memo_prec)", "name": name, "hist": hist})
+                    self.find("libelefun.constant_memo", {"what": "memo_val != F(memo_prec)", "name": name, "hist": hist})
             # probe versus fresh process
             name = r.choice(names)
             prec = r.choice([r.randint(1, 400), hist[-1][1], max(1, R.w[name].memo_prec)])
             try:
                 here = int(R.g[name](prec))
             except Exception as e:
-                self.findings.append({"what": "probe raised " + type(e).__name__, "name": name, "prec": prec, "hist": hist})
+                self.find("libelefun.constant_memo", {"what": "probe raised " + type(e).__name__, "name": name, "prec": prec, "hist": hist})
                 continue
             mod = "libelefun" if hasattr(R.le, name) and name in R.le.__dict__ else "gammazeta"
             fr = self.fresh.eval("result = int(%s.%s(%d))" % (mod, name, prec))
@@ -406,7 +458,7 @@ class CacheHarness:
                     self.softbump("fixed_probe_differs_by_1")
                     self.soft.setdefault("fixed_probe_example", (name, prec, R.w[name].memo_prec))
                 else:
-                    self.findings.append({"what": "probe differs from fresh process", "name": name, "prec": prec,
+                    self.find("libelefun.constant_memo", {"what": "probe differs from fresh process", "name": name, "prec": prec,
                                           "here": here, "fresh": fr, "hist": hist})
 
     def part_const(self, n):
@@ -442,17 +494,22 @@ class CacheHarness:
                 self.disagree("const", line, steps, items, name)
             # probe vs fresh, all rounding modes; directed rounding must bracket the nearest value
             p = r.choice([r.randint(1, 300), hist[-1][0]])
-            for rnd in RNDS:
+            modn = "libelefun" if name in R.le.__dict__ else "gammazeta"
+            fr_all = self.fresh.eval("result = [%s.%s(%d, r) for r in %r]" % (modn, R.MPF[name], p, RNDS))
+            for i, rnd in enumerate(RNDS):
                 here = fn(p, rnd)
-                fr = self.fresh.eval("result = %s.%s(%d, %r)" % ("libelefun" if name in R.le.__dict__ else "gammazeta", R.MPF[name], p, rnd))
                 self.bump("const_probes")
-                if fr != repr(here):
+                try:
+                    frv = eval(fr_all)[i]
+                except Exception:
+                    frv = fr_all
+                if frv != here:
                     self.softbump("mpf_probe_differs")
-                    self.findings.append({"what": "mpf constant depends on history", "name": name, "prec": p, "rnd": rnd,
-                                          "here": repr(here), "fresh": fr, "hist": hist})
+                    self.find("libelefun.def_mpf_constant:history", {"what": "mpf constant depends on history", "name": name, "prec": p, "rnd": rnd,
+                              "here": repr(here), "fresh": repr(frv), "hist": hist})
             lo, hi = fn(p, "f"), fn(p, "c")
             if not R.libmp.mpf_le(lo, hi):
-                self.findings.append({"what": "floor > ceiling", "name": name, "prec": p})
+                self.find("libelefun.def_mpf_constant", {"what": "floor > ceiling", "name": name, "prec": p})
 
     # ---------------------------------------------------------------- log_int_cache
     def part_logint(self, n):
@@ -507,7 +564,7 @@ class CacheHarness:
                     e = le.log_int_cache.get(nn)
                     steps.append([tag, "-" if v is None else str(v)] + (["N", "N"] if e is None else [str(e[1]), str(int(e[0]))]))
                     if tag == "x" and e != before:
-                        self.findings.append({"what": "log_int_cache changed by aborted call", "hist": hist})
+                        self.find("libelefun.log_int_fixed", {"what": "log_int_cache changed by aborted call", "hist": hist})
             finally:
                 le.mpf_log = orig_log
             need = sorted(set((nn, p + 10) for nn, p, _ in hist))
@@ -519,7 +576,7 @@ class CacheHarness:
                 self.disagree("logint", line, steps, items)
             for k, (v, vp) in le.log_int_cache.items():
                 if not (k < le.MAX_LOG_INT_CACHE and int(v) == realF(k, vp)):
-                    self.findings.append({"what": "log_int_cache invariant", "n": k, "hist": hist})
+                    self.find("libelefun.log_int_fixed", {"what": "log_int_cache invariant", "n": k, "hist": hist})
             nn, p = r.choice(ns), r.choice([r.randint(1, 300), hist[-1][1]])
             here = int(le.log_int_fixed(nn, p))
             fr = self.fresh.eval("result = int(libelefun.log_int_fixed(%d, %d))" % (nn, p))
@@ -528,7 +585,7 @@ class CacheHarness:
                 if abs(int(fr) - here) <= 1:
                     self.softbump("logint_probe_differs_by_1")
                 else:
-                    self.findings.append({"what": "log_int probe differs from fresh", "n": nn, "prec": p, "here": here, "fresh": fr, "hist": hist})
+                    self.find("libelefun.log_int_fixed", {"what": "log_int probe differs from fresh", "n": nn, "prec": p, "here": here, "fresh": fr, "hist": hist})
 
     # ---------------------------------------------------------------- bernoulli_cache
     def part_bern(self, n):
@@ -588,7 +645,7 @@ class CacheHarness:
                         v = gz.mpf_bernoulli(nn, p, None if rnd == "-" else rnd)
                         val = "H" if hugecalls else enc_mpf(v)
                         if hugecalls and v != orig_huge(*hugecalls[0]):
-                            self.findings.append({"what": "huge path value mismatch", "hist": hist})
+                            self.find("gammazeta.mpf_bernoulli", {"what": "huge path value mismatch", "hist": hist})
                     except InjectedFault:
                         val = "x"
                     e = gz.bernoulli_cache.get(wp)
@@ -598,7 +655,7 @@ class CacheHarness:
                         numbers, state = e
                         st = [str(int(x)) for x in state]
                         if sorted(numbers.keys()) != [0] + list(range(2, state[0], 2)):
-                            self.findings.append({"what": "bernoulli numbers/state inconsistent", "hist": hist, "keys": sorted(numbers.keys()), "state": state})
+                            self.find("gammazeta.mpf_bernoulli", {"what": "bernoulli numbers/state inconsistent", "hist": hist, "keys": sorted(numbers.keys()), "state": state})
                     steps.append([val] + st)
             finally:
                 gz.mpf_rdiv_int, gz.mpf_bernoulli_huge = orig_rdiv, orig_huge
@@ -622,11 +679,19 @@ class CacheHarness:
             self.bump("bern_probes")
             if fr != repr(here):
                 frv = eval(fr)
-                if R.libmp.mpf_pos(frv, p, rnd) == R.libmp.mpf_pos(here, p, rnd):
-                    self.softbump("D14_bernoulli_first_call_unrounded")
-                    self.soft.setdefault("D14_example", {"n": nn, "prec": p, "rnd": rnd, "fresh_bc": frv[3], "after_history_bc": here[3]})
+                L = R.libmp
+                inp = {"n": nn, "prec": p, "rnd": rnd, "here": repr(here), "fresh": fr, "hist": hist}
+                if L.mpf_pos(frv, p, rnd) == L.mpf_pos(here, p, rnd):
+                    # D14 (repaired by 8bbd625): one of the two is the unrounded working-precision entry
+                    self.find("gammazeta.mpf_bernoulli:first-call-unrounded",
+                              dict(inp, what="mpf_bernoulli returns the unrounded cache entry on one path and the rounded value on the other"))
                 else:
-                    self.findings.append({"what": "bernoulli probe differs beyond rounding", "n": nn, "prec": p, "here": repr(here), "fresh": fr, "hist": hist})
+                    d = L.mpf_abs(L.mpf_sub(frv, here))
+                    ulp = (0, 1, here[2] + here[3] - p, 1)
+                    if L.mpf_le(d, ulp):
+                        self.softbump("bernoulli_probe_differs_by_1ulp(huge vs recurrence path)")
+                    else:
+                        self.find("gammazeta.mpf_bernoulli", dict(inp, what="bernoulli probe differs from fresh process beyond 1 ulp"))
 
     # ---------------------------------------------------------------- exact-key table caches, end to end
     def part_exact(self, n):
@@ -689,7 +754,7 @@ class CacheHarness:
                     w_ = key << (10 + le.COS_SIN_CACHE_PREC - le.COS_SIN_CACHE_STEP)
                     c_, s_ = le.exponential_series(w_, 10 + le.COS_SIN_CACHE_PREC, 2); ref = (c_ >> 10, s_ >> 10)
                 if tuple(int(t) for t in val) != tuple(int(t) for t in ref):
-                    self.findings.append({"what": "table entry differs from recomputation", "kind": kind, "key": key})
+                    self.find("libelefun.taylor_tables", {"what": "table entry differs from recomputation", "kind": kind, "key": key})
             cache.clear(); cache.update(snapshot)
             call_, code = probe
             here = call_()
@@ -697,7 +762,7 @@ class CacheHarness:
             fr = self.fresh.eval(code)
             self.bump("exact_probes")
             if fr != repr(here):
-                self.findings.append({"what": "table-cache probe differs from fresh", "kind": kind, "code": code, "here": repr(here), "fresh": fr})
+                self.find("libelefun.taylor_tables", {"what": "table-cache probe differs from fresh", "kind": kind, "code": code, "here": repr(here), "fresh": fr})
 
     # ---------------------------------------------------------------- quadrature nodes
     def part_quad(self, n):
@@ -762,7 +827,7 @@ class CacheHarness:
                 ref = fr_rule.transform_nodes(fr_rule.calc_nodes(deg, prec), a, b)
                 mp.prec = p0
                 if list(nodes) != list(ref):
-                    self.findings.append({"what": "quadrature nodes differ from fresh computation", "key": (a, b, deg, prec)})
+                    self.find("calculus.quadrature.get_nodes", {"what": "quadrature nodes differ from fresh computation", "key": (a, b, deg, prec)})
             mp.prec = 53
 
     # ---------------------------------------------------------------- matrix _LU
@@ -774,12 +839,16 @@ class CacheHarness:
             p0 = r.choice([30, 53, 100])
             mp.prec = p0
             dim = r.choice([2, 3, 4])
-            A = mp.matrix([[mp.mpf(r.randint(-9, 9)) / r.randint(1, 7) + (40 if i == j else 0) for j in range(dim)] for i in range(dim)])
+            entries_nd = [[[r.randint(-9, 9), r.randint(1, 7), 40 if i == j else 0] for j in range(dim)] for i in range(dim)]
+            A = mp.matrix([[mp.mpf(a_) / b_ + c_ for a_, b_, c_ in row] for row in entries_nd])
             versions = {0: A.copy()}
             ver = 0
             nextver, nextsing = [1], [1000]
             grown = [False]
             ops, steps, checks = [], [], []
+            stale_checks = []
+            pyops = []
+            entries0 = [[str(A[i, j]) for j in range(dim)] for i in range(dim)]
             orig_mnorm = mp.mnorm
             arm = [False]
 
@@ -805,12 +874,16 @@ class CacheHarness:
                         except ZeroDivisionError:
                             res = None; tag = "x"
                         arm[0] = False
-                        ops.append("D %d %d" % (uc, fault))
+                        ops.append("D %d %d" % (uc, fault)); pyops.append(["D", uc, fault])
                         steps.append([tag, None, res])
+                        if tag == "c":
+                            stale_checks.append((len(ops) - 1, ver, mp.prec, res))
                     elif k < 0.7:
                         hi_ = A.rows - (1 if grown[0] else 0)      # keep the zero row/column of a grown matrix
                         i, j = r.randrange(hi_), r.randrange(hi_)
-                        A[i, j] = mp.mpf(r.randint(1, 50)) / 7 + (40 if i == j else 0)
+                        num_ = r.randint(1, 50) + (280 if i == j else 0)
+                        A[i, j] = mp.mpf(num_) / 7
+                        pyops.append(["S", i, j, num_, 7])
                         if grown[0]:
                             ver = nextsing[0]; nextsing[0] += 1
                         else:
@@ -827,11 +900,11 @@ class CacheHarness:
                             grown[0] = True
                             ver = nextsing[0]; nextsing[0] += 1
                         versions[ver] = A.copy()
-                        ops.append("R %d" % ver); steps.append(["-", None, None])
+                        ops.append("R %d" % ver); steps.append(["-", None, None]); pyops.append(["R", A.rows])
                     else:
                         p = r.choice([20, 53, 100, 200])
                         mp.prec = p
-                        ops.append("P %d" % p); steps.append(["-", None, None])
+                        ops.append("P %d" % p); steps.append(["-", None, None]); pyops.append(["P", p])
                     steps[-1][1] = A._LU
             finally:
                 mp.mnorm = orig_mnorm
@@ -852,6 +925,26 @@ class CacheHarness:
                     R.Fcache[key] = mp.LU_decomp(versions[v].copy(), use_cache=False)
                     mp.prec = save
                 return R.Fcache[key]
+            # property level: a decomposition served from A._LU must be the one of the CURRENT contents, and
+            # not less accurate than the current precision asks for
+            for idx, cur_ver, cur_prec, res in stale_checks:
+                it = items[idx]
+                if it[0] != "c":
+                    continue
+                v, p = (int(t) for t in it[1].split("."))
+                inp = {"kind": "lu-history", "p0": p0, "matrix": entries0, "matrix_num_den": entries_nd, "ops": ops[:idx + 1], "pyops": pyops[:idx + 1], "served": "contents-version %d at %d bits" % (v, p),
+                       "current": "contents-version %d at %d bits" % (cur_ver, cur_prec),
+                       "served_dims": [res[0].rows, res[0].cols], "current_dims": [versions[cur_ver].rows, versions[cur_ver].cols]}
+                if v != cur_ver:
+                    self.lu_stale["resize"] += 1
+                    if self.lu_stale["resize"] <= 2:
+                        self.find("matrices.matrices.matrix:_LU-resize", dict(inp, what="A._LU survives A.rows=/A.cols=: LU_decomp(A) serves the decomposition of the old contents"))
+                elif p < cur_prec:
+                    ref = realLU("%d.%d" % (cur_ver, cur_prec)) if cur_ver < 1000 else None
+                    if ref is not None and not (res[0] == ref[0] and res[1] == ref[1]):
+                        self.lu_stale["precision"] += 1
+                        if self.lu_stale["precision"] <= 2:
+                            self.find("matrices.linalg.LU_decomp:_LU-precision", dict(inp, what="A._LU computed at a lower precision is served by LU_decomp(A)/lu(A) at a higher precision"))
             for (tag, lu_after, res), it, op in zip(steps, items, ops):
                 ok = (tag == it[0])
                 if ok and it[1] != "-":
@@ -964,7 +1057,7 @@ class CacheHarness:
                         new = set()
                         tags.append("x")
                         if set(mp.hyp_summators.keys()) != before:
-                            self.findings.append({"what": "hyp_summators changed by aborted make_hyp_summator"})
+                            self.find("ctx_mp.hypsum", {"what": "hyp_summators changed by aborted make_hyp_summator"})
                     arm[0] = False
                     ids.append(keyids.setdefault(name, len(keyids))); faults.append(fault)
                     last = (th, code, mp.prec)
@@ -982,7 +1075,7 @@ class CacheHarness:
             fr = self.fresh.eval("mp.prec = %d\nresult = %s" % (p, code))
             self.bump("hyp_probes")
             if fr != repr(here):
-                self.findings.append({"what": "hypsum probe differs from fresh", "code": code, "prec": p, "here": repr(here), "fresh": fr})
+                self.find("ctx_mp.hypsum", {"what": "hypsum probe differs from fresh", "code": code, "prec": p, "here": repr(here), "fresh": fr})
             mp.prec = 53
 
     # ----------------------------------------------------------------
